@@ -13,6 +13,7 @@ import (
 	"context"
 	"encoding/json"
 	"fmt"
+	"hash/crc32"
 	"math/rand"
 	"os"
 	"sort"
@@ -61,6 +62,11 @@ func c08Streams(mgr *Manager) ([]string, map[uint64]string, error) {
 		ep := fmt.Sprintf("%s:%d>%s:%d", st.ClientHostIP(), st.ClientPort, st.ServerHostIP(), st.ServerPort)
 		line := ep
 		for _, c := range d {
+			if len(c.Content) > 64 {
+				// the filler: length and checksum instead of the text
+				line += fmt.Sprintf(" %d:%s...(%d bytes, crc %08x)", c.Direction, string(c.Content[:8]), len(c.Content), crc32.ChecksumIEEE(c.Content))
+				continue
+			}
 			line += fmt.Sprintf(" %d:%s", c.Direction, string(c.Content))
 		}
 		lines = append(lines, line)
@@ -107,6 +113,7 @@ func TestC08Standin(t *testing.T) {
 		longLived := false
 		slowConv := map[int]bool{} // conversations that last longer than the idle limit
 		filler := 0
+		staleSnapshot := false
 		if round == 0 && os.Getenv("C08_SNAPSHOT") != "0" {
 			// one round with a capture large enough for a reassembly snapshot (100000 packets): a conversation that
 			// started long before the snapshot point and is still active has to be part of the snapshot
@@ -116,10 +123,22 @@ func TestC08Standin(t *testing.T) {
 			}
 			filler = 100200
 			longLived = true
+		} else if round == 2 && os.Getenv("C08_SNAPSHOT") != "0" {
+			// a second round with a snapshot: the capture that holds the snapshot point arrives first, then an
+			// older capture with a datagram of a conversation that is open at the snapshot point (which makes the
+			// snapshot stale), then a capture that continues the conversation. No gap reaches the idle limit, with
+			// or without the middle capture.
+			nConv = 2
+			for k := 0; k < 6; k++ {
+				pkts = append(pkts, c08Packet{conv: 0, at: time.Duration(2*k) * time.Minute, payload: fmt.Sprintf("a%d", k)})
+			}
+			filler = 100200
+			longLived = true
+			staleSnapshot = true
 		} else {
 			for c := 0; c < nConv; c++ {
 				at := time.Duration(rng.Intn(20)) * time.Second
-				slow := rng.Intn(3) == 0
+				slow := rng.Intn(3) == 0 && round%3 != 1 // every third round: short conversations only, captures that overlap
 				n := 1 + rng.Intn(4)
 				if slow {
 					n = 3 + rng.Intn(4)
@@ -146,6 +165,9 @@ func TestC08Standin(t *testing.T) {
 		sort.SliceStable(pkts, func(i, j int) bool { return pkts[i].at < pkts[j].at })
 		// chronological cut into capture files
 		nFiles := 1 + rng.Intn(4)
+		if round%3 == 1 {
+			nFiles = 3 + rng.Intn(2)
+		}
 		if nFiles > len(pkts) {
 			nFiles = len(pkts)
 		}
@@ -173,6 +195,36 @@ func TestC08Standin(t *testing.T) {
 			cur = append(cur, p)
 		}
 		files = append(files, cur)
+		if staleSnapshot {
+			// arrival order: [a0 a1 a3 filler a4] [a2] [a5]
+			files = [][]c08Packet{nil, nil, nil}
+			for _, p := range pkts {
+				switch {
+				case p.payload == "a2":
+					files[1] = append(files[1], p)
+				case p.payload == "a5":
+					files[2] = append(files[2], p)
+				default:
+					files[0] = append(files[0], p)
+				}
+			}
+		}
+		if filler == 0 && nFiles > 1 && !longLived && (round%3 == 1 || rng.Intn(2) == 0) {
+			// captures that overlap in time (two capture points recording at once): every datagram goes to one of
+			// the files, each file stays chronological. Importing them one by one then replays older captures
+			// whose packets interleave. (Not with conversations longer than the idle limit: for those any arrival
+			// out of time order is the recorded finding.)
+			files = make([][]c08Packet, nFiles)
+			for _, p := range pkts {
+				k := rng.Intn(nFiles)
+				files[k] = append(files[k], p)
+			}
+			for k := len(files) - 1; k >= 0; k-- {
+				if len(files[k]) == 0 {
+					files = append(files[:k], files[k+1:]...)
+				}
+			}
+		}
 		var desc []string
 		for _, f := range files {
 			var ps []string
@@ -206,17 +258,18 @@ func TestC08Standin(t *testing.T) {
 			d := makeTempdirs(t)
 			mgr := makeManager(t, d)
 			defer func() { mgr.Close() }()
-			names := make([][]string, len(files))
-			for i, f := range files {
+			// a capture file is written when it is imported, not before (a restarted service takes every file it
+			// finds in the capture directory for imported)
+			nameOf := func(i int) []string {
 				var pk []pcapOverIPPacket
-				for _, p := range f {
+				for _, p := range files[i] {
 					pk = append(pk, mk(p))
 				}
 				n, err := writePcaps(mgr.PcapDir, pk)
 				if err != nil {
 					t.Fatalf("writePcaps: %v", err)
 				}
-				names[i] = n
+				return n
 			}
 			known := map[uint64]string{}
 			check := func(when string) bool {
@@ -248,7 +301,7 @@ func TestC08Standin(t *testing.T) {
 			if oneCall {
 				var all []string
 				for _, i := range order {
-					all = append(all, names[i]...)
+					all = append(all, nameOf(i)...)
 				}
 				mgr.ImportPcaps(all)
 				if !check("after the import") {
@@ -257,7 +310,7 @@ func TestC08Standin(t *testing.T) {
 			} else if len(noWait) > 0 && noWait[0] {
 				// one call per capture, back to back: the later ones wait in the import queue
 				for _, i := range order {
-					mgr.ImportPcaps(names[i])
+					mgr.ImportPcaps(nameOf(i))
 				}
 				if !check("after the queued imports") {
 					return nil, false
@@ -265,7 +318,7 @@ func TestC08Standin(t *testing.T) {
 			} else {
 				for k, i := range order {
 					events, closer := mgr.Listen()
-					mgr.ImportPcaps(names[i])
+					mgr.ImportPcaps(nameOf(i))
 					waitForEvent(t, events, closer, "pcapProcessed")
 					if !check(fmt.Sprintf("after capture %d (step %d)", i, k)) {
 						return nil, false
